@@ -75,7 +75,9 @@ func c18GenSchemaX(r *core.Rng, rich bool) (*yang.Stmt, *snode) {
 			switch r.Intn(8) {
 			case 0:
 				s.Add(yang.S("type", "uint64"))
-				sn.vals, sn.typeName = []string{"0", "18446744073709551615", "9007199254740993", "9007199254740992", "4294967296", "7"}, "uint64"
+				sn.vals, sn.typeName = []string{"0", "18446744073709551615", "9007199254740993", "9007199254740992", "4294967296", "7",
+					// other spellings of the same numbers (a sign, leading zeros), also beyond 2^63
+					"+18446744073709551615", "09223372036854775808", "+9223372036854775808", "+7", "007"}, "uint64"
 			case 1:
 				s.Add(yang.S("type", "int64"))
 				sn.vals, sn.typeName = []string{"-9223372036854775808", "9223372036854775807", "-9007199254740993", "0", "-1"}, "int64"
